@@ -466,6 +466,40 @@ theorem lattice_index_exact (sub over : Lattice) (hs : sub.denom ≠ 0) (ho : ov
             (over.denom * over.denom * (over.denom * over.denom) * (toMatrix sub.basis).det)) :
     (latIndex sub over : ℚ) = covol sub / covol over := latIndex_spec sub over hs ho hts hto hdo hdvd
 
+/-! ### tie T for lattice.c: the exactness theorems restated on the GENERATED definitions -/
+
+/-- the translated C text of `quat_lattice_index` (fourth powers of the denominators, products of the diagonals, truncated
+    division, absolute value) = the model, and is the covolume ratio under the hypotheses of `lattice_index_exact` -/
+theorem lattice_index_translated_exact (sub over : Lattice) (hs : sub.denom ≠ 0) (ho : over.denom ≠ 0)
+    (hts : ∀ r c, r < 4 → c < r → sub.basis.get r c = 0) (hto : ∀ r c, r < 4 → c < r → over.basis.get r c = 0)
+    (hdo : (toMatrix over.basis).det ≠ 0)
+    (hdvd : (sub.denom * sub.denom * (sub.denom * sub.denom) * (toMatrix over.basis).det) ∣
+            (over.denom * over.denom * (over.denom * over.denom) * (toMatrix sub.basis).det)) :
+    ((SqiGen.QuatAlg.quat_lattice_index sub.denom (sub.basis.get 0 0) (sub.basis.get 1 1) (sub.basis.get 2 2)
+      (sub.basis.get 3 3) over.denom (over.basis.get 0 0) (over.basis.get 1 1) (over.basis.get 2 2)
+      (over.basis.get 3 3) : ℤ) : ℚ) = covol sub / covol over := by
+  rw [QuatAlgText.lattice_index_gen]; exact latIndex_spec sub over hs ho hts hto hdo hdvd
+
+/-- the translated call skeleton of `quat_lattice_reduce_denom` (SqiGen.QuatMat; `ibz_mat_4x4_gcd`, `ibz_gcd`, the scalar
+    divisions) keeps the rational lattice and a non-zero denominator -/
+theorem lattice_reduce_denom_translated_exact (l : Lattice) (hd : l.denom ≠ 0) :
+    let r := SqiGen.QuatMat.quat_lattice_reduce_denom ibzGcd Int.tdiv Int.tmod Mat4.gcd
+      (fun s m => (Mat4.scalarDiv s m).1) l.denom l.basis
+    ratLat ⟨r.1, r.2⟩ = ratLat l ∧ r.1 ≠ 0 := by
+  intro r
+  have h : r = _ := reduce_denom_translated l
+  rw [h]; exact latReduceDenom_spec l hd
+
+/-- the translated data flow of `quat_lattice_dual_without_hnf` (transpose, adjugate / determinant roles, reduce_denom)
+    returns the dual lattice -/
+theorem lattice_dual_translated_exact (l : Lattice) (hd : l.denom ≠ 0) (hdet : (toMatrix l.basis).det ≠ 0) :
+    let r := SqiGen.QuatMat.quat_lattice_dual_without_hnf (· * ·) Mat4.get Vec4.mk Mat4.scalarMul Mat4.transpose
+      Mat4.invWithDet hnfCore (fun d b => ((latReduceDenom ⟨d, b⟩).denom, (latReduceDenom ⟨d, b⟩).basis)) l.denom l.basis
+    ratLat ⟨r.1, r.2⟩ = Dual (ratLat l) ∧ Dual (ratLat ⟨r.1, r.2⟩) = ratLat l := by
+  intro r
+  have h : r = _ := (lattice_callers_translated l l).2.2
+  rw [h]; exact ⟨(latDual_spec l hd hdet).1, (latDual_spec l hd hdet).2.1⟩
+
 /-- every lattice routine ends with `quat_lattice_reduce_denom`, whose output is reduced (gcd(content, denom) = 1) -/
 theorem lattice_outputs_reduced (p : ℤ) (l1 l2 : Lattice) (h1 : l1.denom ≠ 0) (h2 : l2.denom ≠ 0) :
     Reduced (latReduceDenom l1) ∧ Reduced (latHnf l1) ∧ Reduced (latAdd l1 l2) ∧ Reduced (latMul p l1 l2) :=
